@@ -67,6 +67,9 @@ def per_constant(chk, mpmath, lm, name, rng, inj, events, meta, eid, nh):
                                x={"abort": True, "mb": mb, "ma": cell.memo_prec, "sameval": cell.memo_val == vb})
                 meta[eid] = {"const": name, "aborted_request": pa, "history": hist[:step]}
                 events.append(ev); eid += 1
+            if step and cell.memo_prec > 40 and rng.random() < 0.35:
+                # a request landing just around the end of the memo window (wp = p + 20 vs memo_prec)
+                p = max(1, cell.memo_prec - 20 + rng.randint(-6, 22))
             mb = cell.memo_prec
             try:
                 ans = fn(p, rnd)
